@@ -13,7 +13,7 @@ PROPERTY = "C09"
 LEVEL = "exploration"
 BUDGET_S = {"quick": 50, "thorough": 900}
 FLOOR = {"quick": 3000, "thorough": 100000}
-MUST_REACH = ("table_entries_judged", "protocol_numbers_judged", "splitter_cases_judged", "number_roundtrips_judged", "platform_switch_histories")
+MUST_REACH = ("table_entries_judged", "protocol_numbers_judged", "splitter_cases_judged", "number_roundtrips_judged", "platform_switch_histories", "config_level_renderings")
 RULE = ("complete enumeration: {asa,ios,nxos} x version strings {'', '15', '15.2(02)SY', '16.09.06', '9.3(8)'} x {tcp,udp} x "
         "every table name (name -> number vs oracle/names.py; number -> rendered name -> parsed back), every protocol "
         "number 0..255 x platform x protocol_nr x has_port and every protocol name x platform, one ACE per table name on "
@@ -128,6 +128,37 @@ def run(ctx) -> None:
                     ctx.violation({"table": [platform, version, proto], "number": num, "name": name},
                                   "ports() maps a number to a name that names() maps elsewhere", f"{num}->{name}->{n2p.get(name)}")
                 ctx.judged(sig=("num2name", platform, version, proto, num))
+
+    # 1b. the config-level functions use the table of the requested platform/version too
+    import cisco_acl  # pylint: disable=import-outside-toplevel
+
+    for platform, version, proto, n2p, p2n in tables:
+        if not mine():
+            continue
+        nums = sorted(set(n2p.values()))
+        body = "\n".join(f" permit {proto} any any eq {n}" for n in nums)
+        head = "ip access-list T" if platform == "nxos" else "ip access-list extended T"
+        cfg = f"{head}\n{body}\n"
+        for func in ("acls", "aces"):
+            case = {"function": func, "table": [platform, version, proto]}
+            try:
+                res = getattr(cisco_acl, func)(cfg, platform=platform, version=version)
+                items = res[0].items if func == "acls" and res else res
+            except Exception as ex:  # pylint: disable=broad-except
+                ctx.violation(case, "config-level function raised on numeric ports", f"{type(ex).__name__}: {ex}")
+                continue
+            if len(items) != len(nums):
+                ctx.violation(case, "config-level function lost entries", f"{len(items)} of {len(nums)}")
+                continue
+            for item, num in zip(items, nums):
+                shown = item.line.split()[-1]
+                if item.dstport.items != [num]:
+                    ctx.violation(case, "config-level function changed a port number", f"{num} -> {item.dstport.items}")
+                elif not shown.isdigit() and n2p.get(shown) != num:
+                    ctx.violation(case, "config-level function renders a name that this platform/version table does not have",
+                                  f"{num} -> {shown!r} (table {platform}/{version or 'default'}/{proto})")
+            ctx.count("config_level_renderings")
+            ctx.judged(sig=("cfg", func, platform, version, proto), n=len(nums))
 
     # 2. protocols
     for platform in PLATFORMS:
